@@ -305,6 +305,42 @@ func c10More(l *lean) {
 	one("containsCheck", cond("store.go", "Add", "contains"))
 	one("configureLoadsCache", cond("store.go", "Configure", "loadConflictedDocuments"))
 
+	// wiring (cmd/root.go): one store object, handed to the network and the VDR, registered as an engine after the
+	// storage engine (its Configure opens the database and loads the conflicted cache) and before its users
+	rfset, root := parseFile("cmd/root.go")
+	var engines, news, users []string
+	ast.Inspect(root, func(n ast.Node) bool {
+		c, ok := n.(*ast.CallExpr)
+		if !ok {
+			return true
+		}
+		fun := c10Src(rfset, c.Fun)
+		if strings.HasSuffix(fun, ".RegisterEngine") && len(c.Args) == 1 {
+			engines = append(engines, c10Src(rfset, c.Args[0]))
+		}
+		if fun == "didstore.New" {
+			news = append(news, c10Src(rfset, c))
+		}
+		for _, a := range c.Args {
+			if id, ok := a.(*ast.Ident); ok && id.Name == "didStore" && !strings.HasSuffix(fun, ".RegisterEngine") {
+				users = append(users, fun)
+			}
+		}
+		return true
+	})
+	l.def("engineOrder", "List String", leanStrList(engines), engines)
+	l.def("didStoreConstructions", "List String", leanStrList(news), news)
+	l.def("didStoreUsers", "List String", leanStrList(users), users)
+	configurable := false
+	for _, d := range files["store.go"].Decls {
+		if g, ok := d.(*ast.GenDecl); ok {
+			if s := c10Src(fsets["store.go"], g); strings.Contains(s, "core.Configurable = (*store)(nil)") {
+				configurable = true
+			}
+		}
+	}
+	l.def("storeIsConfigurable", "Bool", map[bool]string{true: "true", false: "false"}[configurable], configurable)
+
 	// digest of every function the model mirrors (normalised body text): an edit to any of them must be looked at
 	var dig [][2]string
 	for _, spec := range []struct {
